@@ -11,15 +11,18 @@ For every text: `Rule.create(text)` (parse), `rule.load(engine)`, then `rule.is_
 `consequent.is_loaded()` and the loaded trees.
 Correspondence: the Coq model Model/RuleText.v (`create_gen ascii_float_syntax code_has_F6`, run by vm_compute) must give the
 same exception class (err enum), the same three flags and the same loaded antecedent tree / conclusions; RuleBlock.load_rules
-(after a first load against another engine) against `load_rules`; Python's float() against `ascii_float_syntax`.
+(after a first load against another engine) against `load_rules`; a second Rule.load against another engine without unload
+against `rule_load`; Python's float() against `ascii_float_syntax`.
 Direct oracle (the property, on the public API only): never an internal error class; never is_loaded() after a failed load;
 an accepted rule exports (str, repr) and evaluates (activate_with, trigger) without exception; a rule with exactly one
 injected error of a listed class (clean engines only) is never accepted.
 FLL stream.  The 61 shipped .fll files and exported random engines, mutated at line level (delete / duplicate / swap /
 truncate) and token level (delete / duplicate / substitute / truncate / colon removal); `FllImporter().from_string`.
+Correspondence: Model/Fll.v's `import_` (numbers = tokens recognised by ascii_float_syntax) must accept exactly when the
+implementation does and fail with the same class whenever the implementation's exception does not come from loading a rule
+against the engine or from a Function formula (neither is part of Model/Fll.v; rule loading is the rule stream above).
 Direct oracle: never an internal error class; an accepted text re-exports, the export imports, and export(import(export))
-is the export (fixed point after one import/export).  (Model/Fll.v does not model rule loading nor Function formulas;
-the FLL stream is checked by the direct oracle.)
+is the export (fixed point after one import/export).
 """
 from __future__ import annotations
 
@@ -86,9 +89,37 @@ Definition c16_block_check (c : c16_block_case) : bool :=
   oerr_eqb ex ex' &&
   list_eqb (fun (a b : bool * bool) => Bool.eqb (fst a) (fst b) && Bool.eqb (snd a) (snd b))
            (map (fun o => (antecedent_loaded o, consequent_loaded o)) objs') flags.
+(* Rule.load again, against another engine, without unloading: rule created and loaded against eA, then rule.load(eB) *)
+Definition c16_reload_case : Type := (engine float * engine float * string * (option err * bool * bool * bool))%type.
+Definition c16_reload_check (c : c16_reload_case) : bool :=
+  let '(eA, eB, text, (ex, l, a, q)) := c in
+  let o := fst (@create_gen float ascii_float_syntax code_has_F6 eA text) in
+  let '(ex', l', a', q') := observe (@rule_load float code_has_F6 eB o) in
+  oerr_eqb ex ex' && Bool.eqb l l' && Bool.eqb a a' && Bool.eqb q q'.
 (* float(token) *)
 Definition c16_float_case : Type := (string * bool)%type.
 Definition c16_float_check (c : c16_float_case) : bool := Bool.eqb (ascii_float_syntax (fst c)) (snd c).
+"""
+
+
+FLL_IMPORTS = r"""From VF Require Import Core RuleText.
+From VF Require Fll.
+Import ListNotations.
+Local Open Scope string_scope.
+Local Open Scope list_scope.
+Definition c16_parse (s : string) : option string := if ascii_float_syntax s then Some s else None.
+Definition c16_fll_import (lines : list string) := Fll.import_ c16_parse "nan" "inf" "-inf" "1.0" "0.0" lines.
+(* expected: Some None = accepted; Some (Some cls) = rejected with cls by a modelled part of the importer;
+   None = rejected while loading a rule or a Function formula (not modelled): the model must only not crash *)
+Definition c16_fll_case : Type := (list string * option (option err))%type.
+Definition c16_fll_check (c : c16_fll_case) : bool :=
+  match c16_fll_import (fst c), snd c with
+  | Err EInternal, _ => false
+  | _, None => true
+  | Ok _, Some None => true
+  | Err x, Some (Some y) => err_eqb x y
+  | _, _ => false
+  end.
 """
 
 
@@ -113,6 +144,17 @@ def where(ex: BaseException) -> str:
         if "/fuzzylite/" in fr.filename:
             return f"{fr.filename.rsplit('/', 1)[-1]}:{fr.name}"
     return "?"
+
+
+def unmodelled_by_fll(ex: BaseException) -> bool:
+    """The exception comes from loading a rule against the engine or from a Function formula: not part of Model/Fll.v."""
+    for fr in traceback.extract_tb(ex.__traceback__):
+        f = fr.filename.rsplit("/", 1)[-1]
+        if f == "rule.py" and fr.name == "load":
+            return True
+        if f == "term.py" and fr.name in ("parse", "infix_to_postfix", "format_infix", "load", "update_reference"):
+            return True
+    return False
 
 
 # --------------------------------------------------------------------------- engines
@@ -442,7 +484,7 @@ def run_fll(fl, text):
     try:
         engine = fl.FllImporter().from_string(text)
     except BaseException as ex:  # noqa: BLE001
-        return ("err", err_class(ex), type(ex).__name__, where(ex), str(ex)[:200])
+        return ("err", err_class(ex), type(ex).__name__, where(ex), str(ex)[:200], unmodelled_by_fll(ex))
     try:
         e1 = str(engine)
     except BaseException as ex:  # noqa: BLE001
@@ -466,7 +508,7 @@ def run(ctx, build, verdict, ev):
     n_texts = ctx.n(5000, 200000)
     per_engine = 100
     n_engines = max(1, n_texts // per_engine)
-    dist = {"kind": {}, "outcome": {}, "stage": {}, "engine": {"clean": 0, "odd": 0}, "injected": {c: {"texts": 0, "rejected": 0} for c in CLASSES},
+    dist = {"kind": {}, "outcome": {}, "engine": {"clean": 0, "odd": 0}, "injected": {c: {"texts": 0, "rejected": 0} for c in CLASSES},
             "internal_errors": {}}
     samples = []
     oracle_violations = 0
@@ -476,15 +518,25 @@ def run(ctx, build, verdict, ev):
     batches = []  # (imports, groups, index)
     engines_lit, lits, index = [], [], []
     block_lits, block_index = [], []
+    reload_lits, reload_index = [], []
+    n_reload = 0
     float_tokens = set(NUMBERS + ["0.5", "1.0", "1e5", "nan", "inf"])
     accepted = rejected = 0
+    sig_count: dict[str, int] = {}
+    real_add = verdict.add_violation
+
+    def add_once(signature, what, replay):
+        # one concrete input per structural signature; the others are only counted (evidence: violation_signatures)
+        sig_count[signature] = sig_count.get(signature, 0) + 1
+        if sig_count[signature] == 1:
+            real_add(signature, what, replay)
 
     def flush():
-        nonlocal engines_lit, lits, index, block_lits, block_index
+        nonlocal engines_lit, lits, index, block_lits, block_index, reload_lits, reload_index
         if lits or block_lits:
             imports = IMPORTS_HEAD + "\n".join(f"Definition eng_{k} : engine float := {lit}." for k, lit in enumerate(engines_lit)) + "\n"
-            batches.append((imports, lits, index, block_lits, block_index))
-        engines_lit, lits, index, block_lits, block_index = [], [], [], [], []
+            batches.append((imports, lits, index, block_lits, block_index, reload_lits, reload_index))
+        engines_lit, lits, index, block_lits, block_index, reload_lits, reload_index = [], [], [], [], [], [], []
 
     prev = None  # (engine name in batch, real engine) of the previous world, for the load_rules cases
     for eno in range(n_engines):
@@ -501,7 +553,12 @@ def run(ctx, build, verdict, ev):
                 base = gen_rule(rng, desc) or tokenize("if in0 is t00 then out0 is o00")
             r = rng.random()
             cls = None
-            if r < 0.06:
+            if tno in (1, 2) and not odd and "then" in base:  # the two shapes of finding F6: an antecedent ending in `is` / in a hedge
+                it = base.index("then")
+                sp = proposition_spans(base, 1, it)[-1]
+                kind = "probe:ends-in-is" if tno == 1 else "probe:ends-in-hedge"
+                toks = base[:sp[0] + 2] + ([] if tno == 1 else [rng.choice(["very", "not", "somewhat"])]) + [")"] * base[sp[1]:it].count(")") + base[it:]
+            elif r < 0.06:
                 kind, toks = "valid", list(base)
             elif r < 0.30:
                 cls = CLASSES[(tno + eno) % len(CLASSES)]
@@ -516,11 +573,12 @@ def run(ctx, build, verdict, ev):
                 if rng.random() < 0.15 and toks:
                     k2, toks = mutate(rng, toks, desc)
                     kind = kind + "+" + k2
-            text = spell(rng, toks) if kind == "valid" or rng.random() < 0.5 else " ".join(toks)
+            text = spell(rng, toks) if kind == "valid" or (rng.random() < 0.5 and not kind.startswith("probe")) else " ".join(toks)
             if rng.random() < 0.03:
                 cut = rng.randrange(len(text) + 1)
                 text = text[:cut] + "#" + text[cut:]
                 kind += "+comment"
+                cls = None  # no longer "exactly one injected error"
             o = run_rule(fl, engine, text)
             for t in text.split("#")[0].split():
                 float_tokens.add(t)
@@ -543,20 +601,20 @@ def run(ctx, build, verdict, ev):
                         f6_min = (text, desc, engine)
                 else:
                     small = shrink(fl, engine, text, lambda q, c=o["cls"], w=o["where"]: q["cls"] == c and q["where"] == w)
-                    verdict.add_violation(f"rule:internal-error:{key}", f"rule text {small!r} raises {o['cls']} ({o['msg'][:120]}) at {o['where']} instead of a clean rejection",
+                    add_once(f"rule:internal-error:{key}", f"rule text {small!r} raises {o['cls']} ({o['msg'][:120]}) at {o['where']} instead of a clean rejection",
                                           {**replay, "text": small, "original_text": text})
                     oracle_violations += 1
             if o["exc"] is not None and o["loaded"]:
-                verdict.add_violation("rule:loaded-after-failed-load", f"rule {text!r} failed to load ({o['cls']}) but is_loaded() is True", replay)
+                add_once("rule:loaded-after-failed-load", f"rule {text!r} failed to load ({o['cls']}) but is_loaded() is True", replay)
                 oracle_violations += 1
             if o["exc"] is None:
                 accepted += 1
                 problem = use_rule(fl, engine, o["rule"]) if o["loaded"] else "is_loaded() is False after a successful load"
                 if problem:
-                    verdict.add_violation("rule:accepted-not-usable", f"accepted rule {text!r} cannot be exported/evaluated: {problem}", replay)
+                    add_once("rule:accepted-not-usable", f"accepted rule {text!r} cannot be exported/evaluated: {problem}", replay)
                     oracle_violations += 1
                 if cls is not None:
-                    verdict.add_violation(f"rule:accepted-malformed:{cls}", f"rule {text!r} with one injected error ({cls}) is accepted", replay)
+                    add_once(f"rule:accepted-malformed:{cls}", f"rule {text!r} with one injected error ({cls}) is accepted", replay)
                     oracle_violations += 1
                 parsed_texts.append(text)
             else:
@@ -597,7 +655,7 @@ def run(ctx, build, verdict, ev):
                 except BaseException as ex:  # noqa: BLE001
                     bex = err_class(ex)
                     if bex != "ERuntime":
-                        verdict.add_violation(f"ruleblock:load_rules:{type(ex).__name__}", f"RuleBlock.load_rules raised {type(ex).__name__} on {texts}", {"kind": "block", "engine": desc, "texts": texts})
+                        add_once(f"ruleblock:load_rules:{type(ex).__name__}", f"RuleBlock.load_rules raised {type(ex).__name__} on {texts}", {"kind": "block", "engine": desc, "texts": texts})
                         oracle_violations += 1
                 for rr in rules:
                     if bex is not None and rr.is_loaded() and False:
@@ -606,21 +664,60 @@ def run(ctx, build, verdict, ev):
                 bexl = "None" if bex is None else f"(Some {bex})"
                 block_lits.append(f"(eng_{ek}, eng_{target_k}, {vlib.coq_list(vlib.coq_string(t) for t in texts)}, {bexl}, {flags})")
                 block_index.append({"texts": texts, "exc": bex})
+            # ---- Rule.load a second time, against the previous engine, without unload
+            for t in [rng.choice(parsed_texts) for _ in range(6)]:
+                rr = fl.Rule.create(t)
+                try:
+                    rr.load(engine)
+                except BaseException:  # noqa: BLE001
+                    pass
+                try:
+                    rr.load(pengine)
+                    rex = None
+                except BaseException as ex:  # noqa: BLE001
+                    rex = err_class(ex)
+                    if rex == INTERNAL:
+                        add_once(f"rule:internal-error:reload:{type(ex).__name__}@{where(ex)}", f"reloading {t!r} against another engine raises {type(ex).__name__}: {ex}",
+                                              {"kind": "reload", "engine": desc, "engine2": pdesc, "text": t})
+                        oracle_violations += 1
+                    if rr.is_loaded():
+                        add_once("rule:loaded-after-failed-load", f"rule {t!r}, loaded against one engine, fails to load against another ({type(ex).__name__}) but is_loaded() stays True",
+                                              {"kind": "reload", "engine": desc, "engine2": pdesc, "text": t})
+                        oracle_violations += 1
+                if rex is None:
+                    problem = use_rule(fl, pengine, rr) if rr.is_loaded() else "is_loaded() is False after a successful load"
+                    if problem:
+                        add_once("rule:accepted-not-usable", f"rule {t!r} reloaded against another engine cannot be exported/evaluated: {problem}",
+                                              {"kind": "reload", "engine": desc, "engine2": pdesc, "text": t})
+                        oracle_violations += 1
+                rexl = "None" if rex is None else f"(Some {rex})"
+                reload_lits.append(f"(eng_{ek}, eng_{pk}, {vlib.coq_string(t)}, ({rexl}, {str(bool(rr.is_loaded())).lower()}, "
+                                   f"{str(bool(rr.antecedent.is_loaded())).lower()}, {str(bool(rr.consequent.is_loaded())).lower()}))")
+                reload_index.append({"text": t, "exc": rex})
+                n_reload += 1
         prev = (ek, engine, desc)
-        if len(engines_lit) >= 25:
+        if len(engines_lit) >= ctx.n(25, 80):
             flush()
             prev = None
     flush()
 
-    # ---- F6
+    # ---- F6 (repaired in /repo: must not fire any more)
+    f6_reported = False
     if f6_hits:
         text, desc, engine = f6_min
         small = shrink(fl, engine, text, is_f6)
-        verdict.add_violation("antecedent:final-state-typeerror",
+        vin = next((v for v in desc["inputs"] if v["terms"]), None)
+        vout = next((v for v in desc["outputs"] if v["terms"]), None)
+        if vin and vout:  # the canonical minimal rule: valid but for the missing term
+            canonical = f"if {vin['name']} is then {vout['name']} is {vout['terms'][0]['name']}"
+            if is_f6(run_rule(fl, engine, canonical)):
+                small = canonical
+        add_once("antecedent:final-state-typeerror",
                               f"rule text {small!r} (an antecedent ending in `is` or in a hedge) raises TypeError: unsupported operand type(s) for &: 'collections.deque' and 'int' "
                               f"(rule.py Antecedent.load, final-state check `stack & (s_hedge | s_term)`) instead of SyntaxError; {f6_hits} texts of this run hit it",
                               {"kind": "rule", "engine": desc, "text": small, "original_text": text})
         oracle_violations += 1
+        f6_reported = True
 
     # ---- float tokens
     float_lits, float_index = [], []
@@ -639,8 +736,9 @@ def run(ctx, build, verdict, ev):
     mism, block_mism, float_mism = [], [], []
     coq_failed = False
     if not build.translation_errors:
-        for bno, (imports, lits_b, index_b, bl, bi) in enumerate(batches):
-            groups = [("c16_case", "c16_check", lits_b), ("c16_block_case", "c16_block_check", bl)]
+        for bno, (imports, lits_b, index_b, bl, bi, rl, ri) in enumerate(batches):
+            groups = [("c16_case", "c16_check", lits_b), ("c16_block_case", "c16_block_check", bl + []), ("c16_reload_case", "c16_reload_check", rl)]
+            bi = bi + ri
             if bno == 0:
                 groups.append(("c16_float_case", "c16_float_check", float_lits))
             bad, log = vlib.run_coq_cases(ctx.work, f"c16_{bno}", imports, groups, chunk=500)
@@ -660,7 +758,8 @@ def run(ctx, build, verdict, ev):
         m = mism[0]
         verdict.add_broken("correspondence", "C16:rule-text-model", f"Model/RuleText.v and Rule.create/load differ on {len(mism)} texts; first: {m['text']!r}: implementation {m['impl']}; replay: {m['replay']}")
     if block_mism:
-        verdict.add_broken("correspondence", "C16:load_rules-model", f"RuleBlock.load_rules and the model differ on {len(block_mism)} blocks; first: {block_mism[0]}")
+        what = "Rule.load on an already loaded rule (rule_load)" if "text" in block_mism[0] else "RuleBlock.load_rules (load_rules)"
+        verdict.add_broken("correspondence", "C16:reload-model", f"{what} and the model differ on {len(block_mism)} block/reload cases; first: {block_mism[0]}")
     if float_mism:
         verdict.add_broken("correspondence", "C16:float-syntax", f"float(token) and ascii_float_syntax differ on {float_mism[:10]}")
 
@@ -677,43 +776,78 @@ def run(ctx, build, verdict, ev):
         elif res[0] == "ok":
             if res[2] not in fll_reported:
                 fll_reported.add(res[2])
-                verdict.add_violation(res[2], f"unmutated document {name}: {res[1]}", {"kind": "fll", "text": text, "source": name})
+                add_once(res[2], f"unmutated document {name}: {res[1]}", {"kind": "fll", "text": text, "source": name})
                 oracle_violations += 1
         else:
             verdict.add_broken("harness", "fll-source", f"unmutated document {name} is rejected: {res}")
+    fll_lits, fll_index = [], []
+
+    fll_cap = ctx.n(400, 4000)
+
+    def fll_case(name, kind, mtext, res):
+        # string literals are expensive for coqc (memory): small documents only, a capped number of them
+        if not mtext.isascii() or len(mtext) > 2500 or len(fll_lits) >= fll_cap:
+            return
+        if res[0] == "ok":
+            exp = "(Some None)"
+        elif res[5]:
+            exp = "None"
+        else:
+            exp = f"(Some (Some {res[1]}))"
+        fll_lits.append(f"({vlib.coq_list(vlib.coq_string(ln) for ln in mtext.split(chr(10)))}, {exp})")
+        fll_index.append({"source": name, "mutation": kind, "text": mtext, "impl": res[:5] if res[0] == "err" else "accepted"})
+
+    for name, text in sources:
+        fll_case(name, "unmutated", text, ("ok", None, None))
     for k in range(n_fll):
         name, text = rng.choice(sources)
         kind, mtext = mutate_fll(rng, text)
         if rng.random() < 0.1:
             k2, mtext = mutate_fll(rng, mtext) if mtext.strip() else (kind, mtext)
         res = run_fll(fl, mtext)
+        fll_case(name, kind, mtext, res)
         fll_dist["kind"][kind] = fll_dist["kind"].get(kind, 0) + 1
         if res[0] == "err":
-            oc = f"rejected:{res[2]}"
+            oc = f"rejected:{res[2]}" + (" (rule loading / Function formula)" if res[5] else "")
             if res[1] == INTERNAL:
                 key = f"{res[2]}@{res[3]}"
                 fll_dist["internal_errors"][key] = fll_dist["internal_errors"].get(key, 0) + 1
-                sig = "antecedent:final-state-typeerror" if (res[2] == "TypeError" and res[3] == "rule.py:load" and "&" in res[4]) else f"fll:internal-error:{key}"
-                if sig == "antecedent:final-state-typeerror":
-                    f6_hits += 1
-                if sig not in fll_reported and sig != "antecedent:final-state-typeerror":
+                is6 = res[2] == "TypeError" and res[3] == "rule.py:load" and "&" in res[4]
+                sig = "antecedent:final-state-typeerror" if is6 else f"fll:internal-error:{key}"
+                f6_hits += is6
+                if sig not in fll_reported and not (is6 and f6_reported):
                     fll_reported.add(sig)
                     small = shrink_fll(fl, mtext, res[2], res[3])
-                    verdict.add_violation(sig, f"FLL text raises {res[2]} at {res[3]} ({res[4][:120]}) instead of a clean rejection; minimal document: {small!r}",
+                    add_once(sig, f"FLL text raises {res[2]} at {res[3]} ({res[4][:120]}) instead of a clean rejection; minimal document: {small!r}",
                                           {"kind": "fll", "text": small, "source": name, "mutation": kind})
                     oracle_violations += 1
         else:
             oc = "accepted"
             if res[1] is not None and res[2] not in fll_reported:
                 fll_reported.add(res[2])
-                verdict.add_violation(res[2], f"mutated document ({name}, {kind}): {res[1]}", {"kind": "fll", "text": mtext, "source": name, "mutation": kind})
+                add_once(res[2], f"mutated document ({name}, {kind}): {res[1]}", {"kind": "fll", "text": mtext, "source": name, "mutation": kind})
                 oracle_violations += 1
         fll_dist["outcome"][oc] = fll_dist["outcome"].get(oc, 0) + 1
+    fll_mism = []
+    if not build.translation_errors and fll_lits:
+        bad, log = vlib.run_coq_cases(ctx.work, "c16_fll", FLL_IMPORTS, [("c16_fll_case", "c16_fll_check", fll_lits)], chunk=40)
+        for i in bad:
+            if i < 0:
+                if not coq_failed:
+                    verdict.add_broken("correspondence", "C16:coq-evaluation", log)
+                coq_failed = True
+                break
+            fll_mism.append(fll_index[i])
+    if fll_mism:
+        m = fll_mism[0]
+        verdict.add_broken("correspondence", "C16:fll-import-model", f"Model/Fll.v import_ and FllImporter.from_string differ on {len(fll_mism)} of {len(fll_lits)} documents; first "
+                           f"({m['source']}, {m['mutation']}): implementation {m['impl']}; document:\n{m['text'][:1500]}")
 
     c = ev["coverage"]
     n_rule_cases = sum(len(b[1]) for b in batches)
     n_block_cases = sum(len(b[3]) for b in batches)
-    c["evaluations"] = n_rule_cases + n_block_cases + len(float_lits) + n_fll + len(sources)
+    c["evaluations"] = n_rule_cases + n_block_cases + n_reload + len(float_lits) + n_fll + len(sources)
+    c["rule_reloads"] = n_reload
     c["rule_texts"] = n_rule_cases
     c["rule_blocks"] = n_block_cases
     c["float_tokens"] = len(float_lits)
@@ -727,14 +861,16 @@ def run(ctx, build, verdict, ev):
     c["accepted"] = accepted
     c["rejected"] = rejected
     c["F6_hits"] = f6_hits
-    c["correspondence_mismatches"] = len(mism) + len(block_mism) + len(float_mism)
+    c["fll_model_cases"] = len(fll_lits)
+    c["correspondence_mismatches"] = len(mism) + len(block_mism) + len(float_mism) + len(fll_mism)
     c["oracle_violations"] = oracle_violations
+    c["violation_signatures"] = sig_count
     c["samples"] = samples
     ev["assumptions"] += [
         "rule and FLL text is ASCII (Python's str.split()/\\s also treat some non-ASCII characters as blanks; float() also accepts non-ASCII digits)",
         "float(token) is modelled by the decidable class ascii_float_syntax (checked against float() on every token of the run); the theorems take is_float as a parameter",
         "rejection theorems for the antecedent/consequent classes assume an engine whose variable names, term names, hedge names and keywords are pairwise distinct classes (names_distinct); the direct oracle checks the injected classes on such engines",
-        "Model/Fll.v does not model rule loading nor Function formulas: the FLL stream is checked by the direct oracle only",
+        "Model/Fll.v does not model rule loading nor Function formulas: documents the implementation rejects there are only checked by the direct oracle (and for the model not crashing); int() with '_' separators is not modelled",
         "Rule.deactivate() (activation_degree, triggered) is not part of the rule-text model",
     ]
 
@@ -771,6 +907,16 @@ def replay(ctx, data):
             print("  now:", run_fll(fl, r["text"]))
         elif r.get("kind") == "block":
             print("  texts:", r["texts"])
+        elif r.get("kind") == "reload":
+            e1, e2 = enginelib.build_engine(fl, r["engine"]), enginelib.build_engine(fl, r["engine2"])
+            rr = fl.Rule.create(r["text"])
+            for eng in (e1, e2):
+                try:
+                    rr.load(eng)
+                    out = "ok"
+                except BaseException as ex:  # noqa: BLE001
+                    out = f"{type(ex).__name__}: {ex}"
+                print("  load:", out, " is_loaded:", rr.is_loaded())
     for b in data.get("broken", []):
         print("BROKEN", b["kind"], b["name"], "\n", b["detail"][:3000])
     return 0
